@@ -24,7 +24,6 @@ from gallia.transports.doip import (
     GenericHeader,
     PayloadTypes,
     ProtocolVersions,
-    RoutingActivationRequestTypes,
     RoutingActivationResponseCodes,
     TimingAndCommunicationParameters,
     VehicleAnnouncementMessage,
@@ -478,9 +477,7 @@ class DoIPDiscoverer(AsyncScript):
                     separate_diagnostic_message_queue=fast_queue,
                 )
                 logger.info("[📫] Sending RoutingActivationRequest")
-                await conn.write_routing_activation_request(
-                    RoutingActivationRequestTypes(routing_activation_type)
-                )
+                await conn.write_routing_activation_request(routing_activation_type)
             except Exception as e:  # TODO: this probably is too broad
                 logger.warning(
                     f"[🫨] Got me some good errors when it should be working (dis an infinite loop): {e!r}"
